@@ -240,14 +240,18 @@ func (m *Machine) callValue(s *State, f *Frame, x *ssa.Call, cc *ssa.CallCommon,
 		}
 		if strings.HasSuffix(name, ").UnmarshalVT") {
 			sl := args[1].(SliceV)
+			want := callee.Signature.Recv().Type().String()
 			if sl.obj != 0 {
-				if bx, ok := s.heap[sl.obj].v.(BoxV); ok {
+				if bx, ok := s.heap[sl.obj].v.(BoxV); ok && bx.typ == want {
 					s.store(args[0].(Ptr), bx.v)
 					setRes(IfaceV{})
 					return nil
 				}
 			}
-			setRes(IfaceV{})
+			// bytes that were not produced by marshalling this message type: a parse error
+			m.nerr++
+			m.stubs["UnmarshalVT of bytes that are not a marshalled message of that type: error"]++
+			setRes(IfaceV{typ: types.Universe.Lookup("error").Type(), v: &ErrV{id: m.nerr, msg: "proto: cannot parse"}})
 			return nil
 		}
 		if handled, succ := m.syncBlocking(s, f, name, args); handled {
@@ -418,16 +422,40 @@ func (m *Machine) intrinsic(s *State, f *Frame, x *ssa.Call, name string, callee
 		return nil, true
 	case strings.HasSuffix(name, ").ReturnToVTPool") || strings.HasSuffix(name, ").ResetVT"):
 		return nil, true
-	case strings.HasSuffix(name, ").MarshalVT"):
-		id := s.alloc(BoxV{v: s.load(args[0].(Ptr))})
+	case name == "google.golang.org/protobuf/proto.Unmarshal":
+		sl := args[0].(SliceV)
+		msg := args[1].(IfaceV)
+		m.stubs["protobuf Marshal/Unmarshal as box"]++
+		if sl.obj != 0 {
+			if bx, ok := s.heap[sl.obj].v.(BoxV); ok && bx.typ == msg.typ.String() {
+				s.store(msg.v.(Ptr), bx.v)
+				f.env[x] = IfaceV{}
+				return nil, true
+			}
+		}
+		m.nerr++
+		f.env[x] = IfaceV{typ: x.Type(), v: &ErrV{id: m.nerr, msg: "proto: cannot parse"}}
+		return nil, true
+	case name == "google.golang.org/protobuf/proto.Marshal":
+		msg := args[0].(IfaceV)
+		id := s.alloc(BoxV{v: s.load(msg.v.(Ptr)), typ: msg.typ.String()})
+		m.stubs["protobuf Marshal/Unmarshal as box"]++
 		f.env[x] = TupleV{[]Value{SliceV{obj: id, len: 1, cap: 1}, IfaceV{}}}
 		return nil, true
-	case name == "time.Now":
-		tv := m.zero(x.Type()).(StructV)
-		tv.f[0] = m.internalScalar(s, "now_wall", types.Typ[types.Uint64])
-		tv.f[1] = m.internalScalar(s, "now_ext", types.Typ[types.Int64])
-		f.env[x] = tv
+	case name == "google.golang.org/protobuf/proto.Clone":
+		msg := args[0].(IfaceV)
+		id := s.alloc(s.load(msg.v.(Ptr)))
+		f.env[x] = IfaceV{typ: msg.typ, v: Ptr{obj: id}}
 		return nil, true
+	case strings.HasSuffix(name, ").MarshalVT"):
+		m.stubs["protobuf Marshal/Unmarshal as box"]++
+		id := s.alloc(BoxV{v: s.load(args[0].(Ptr)), typ: callee.Signature.Recv().Type().String()})
+		f.env[x] = TupleV{[]Value{SliceV{obj: id, len: 1, cap: 1}, IfaceV{}}}
+		return nil, true
+	case strings.HasPrefix(name, "time.") || strings.HasPrefix(name, "(time."):
+		if r, ok := m.timeIntrinsic(s, f, x, name, args); ok {
+			return r, true
+		}
 	case short == "vYield":
 		s.yields = append(s.yields, strConst(args[0]))
 		return m.schedule(s, true), true
@@ -772,4 +800,70 @@ func (m *Machine) binaryIntrinsic(s *State, f *Frame, x *ssa.Call, name string, 
 		return nil, true
 	}
 	return nil, false
+}
+
+// timeIntrinsic: time.Time is abstracted to integer milliseconds since the epoch (oxia's timestamps are
+// UnixMilli values). Representation: the struct {wall, ext, loc} with ext = milliseconds, wall = 0.
+func (m *Machine) timeIntrinsic(s *State, f *Frame, x *ssa.Call, name string, args []Value) ([]*State, bool) {
+	c := m.ctx
+	mk := func(ms *Term) Value {
+		tv := m.zero(m.timeType(x)).(StructV)
+		tv.f[1] = Sc{ms}
+		return tv
+	}
+	ms := func(v Value) *Term { return sc(v.(StructV).f[1]) }
+	m.stubs["time.Time abstracted to integer milliseconds"]++
+	switch name {
+	case "time.Now":
+		t := m.internalScalar(s, "now_ms", types.Typ[types.Int64])
+		// non-decreasing clock
+		if s.lastNow != nil {
+			s.pc = append(s.pc, c.Cmp("bvsge", sc(t), s.lastNow))
+		}
+		s.pc = append(s.pc, c.Cmp("bvsge", sc(t), c.BV(0, 64)), c.Cmp("bvslt", sc(t), c.BV(1<<50, 64)))
+		s.lastNow = sc(t)
+		f.env[x] = mk(sc(t))
+		return nil, true
+	case "time.UnixMilli":
+		f.env[x] = mk(sc(args[0]))
+		return nil, true
+	case "(time.Time).UnixMilli":
+		f.env[x] = Sc{ms(args[0])}
+		return nil, true
+	case "(time.Time).Add":
+		d := sc(args[1])
+		if !d.konst {
+			return nil, false
+		}
+		f.env[x] = mk(c.BvBin("bvadd", ms(args[0]), c.BV(uint64(sext(d.cv, 64)/1000000), 64)))
+		return nil, true
+	case "(time.Time).Before":
+		f.env[x] = Sc{c.Cmp("bvslt", ms(args[0]), ms(args[1]))}
+		return nil, true
+	case "(time.Time).After":
+		f.env[x] = Sc{c.Cmp("bvsgt", ms(args[0]), ms(args[1]))}
+		return nil, true
+	case "(time.Time).Sub":
+		f.env[x] = Sc{c.BvBin("bvmul", c.BvBin("bvsub", ms(args[0]), ms(args[1])), c.BV(1000000, 64))}
+		return nil, true
+	case "time.Since":
+		f.env[x] = Sc{c.BV(0, 64)}
+		return nil, true
+	case "time.After":
+		id := s.alloc(ChanV{cap: 1, buf: []Value{m.zero(x.Type().Underlying().(*types.Chan).Elem())}})
+		f.env[x] = Ptr{obj: id}
+		return nil, true
+	}
+	return nil, false
+}
+
+func (m *Machine) timeType(x *ssa.Call) types.Type {
+	if m.timeT == nil {
+		for _, p := range m.prog.AllPackages() {
+			if p.Pkg.Path() == "time" {
+				m.timeT = p.Type("Time").Type()
+			}
+		}
+	}
+	return m.timeT
 }
